@@ -231,6 +231,103 @@ def scn_rescaled_cut(variant, left_kind, right_kind, S, K, N):
     return scn
 
 
+def scn_safe_cut(left_kind, right_kind, S, K, N):
+    """One GENERIC iteration of the node loop of the real calculate_treelikelihood_discrete_safe (body cut verbatim) under the ghost
+    invariant  L(m) = partials[m]·C(m),  C(m) = 1 and partials[m] = plain value for nodes not (yet) rescaled (the list was filled by the
+    plain function: precondition), C(m) = product of the collected scalers below m otherwise.  kinds: tip | plain | rescaled.
+      recomputing path (a child rescaled, or the stale value below the threshold): one scaler s appended, rescaled[node] set,
+            partials'[node]·s·C(left)·C(right) ≡ recursion of L(left), L(right);
+      skipping path (only when NEITHER child is rescaled): nothing written, so partials[node] is still the plain L(node) and C(node)=1.
+    The suffix is the same expression as in the rescaled function (C03.equiv.cut.*.suffix claim)."""
+    def scn(mk):
+        from torchtree.evolution import tree_likelihood as tl
+        from vt import loopcut
+        c = loopcut.cut(tl.calculate_treelikelihood_discrete_safe, 0)
+        T = 5
+        left = 1 if left_kind == "tip" else 6
+        right = 3 if right_kind == "tip" else 5
+        node = 7
+        counter = [0]
+        mats = mk.real("M", (2 * T - 2, K, S, S), lo=0)
+        freqs = mk.real("pi", (1, S), lo=0)
+        props = mk.real("w", (K, 1, 1), lo=0)
+        weights = mk.real("wt", (N,), lo=0)
+        thr = mk.real("threshold", (), lo=0)
+        partials = [None] * (2 * T - 1)
+        sentinels = {}
+        for m in range(2 * T - 1):
+            if m not in (left, right, node):
+                sentinels[m] = partials[m] = object()
+        R, C = {}, {}
+        for nm, m, kind in (("Rl", left, left_kind), ("Rr", right, right_kind)):
+            R[m] = partials[m] = mk.real(nm, (S, N) if kind == "tip" else (K, S, N), lo=0, lo_incl=True)
+            C[m] = mk.real("C" + nm, (N,), lo=0) if kind == "rescaled" else None
+
+        def Lval(m, kind, k, j, n):
+            if kind == "tip":
+                return el(R[m], (j, n))
+            v = el(R[m], (k, j, n))
+            return v * el(C[m], (n,)) if kind == "rescaled" else v
+
+        def recursion():
+            out = []
+            for k in range(K):
+                for i in range(S):
+                    for n in range(N):
+                        a = 0
+                        for j in range(S):
+                            a = a + el(mats, (left, k, i, j)) * Lval(left, left_kind, k, j, n)
+                        b = 0
+                        for j in range(S):
+                            b = b + el(mats, (right, k, i, j)) * Lval(right, right_kind, k, j, n)
+                        out.append(a * b)
+            return out
+        spec = recursion()
+        any_rescaled = "rescaled" in (left_kind, right_kind)
+        if any_rescaled:
+            stale = mk.real("stale", (K, S, N), lo=0, lo_incl=True)      # whatever the plain pass left there
+        else:
+            # precondition: the plain pass stored the plain value of the node
+            import numpy as np
+            stale = ST(np.array(spec, dtype=object).reshape(K, S, N)) if mk.symbolic else torch.tensor([float(v) for v in spec], dtype=torch.float64).reshape(K, S, N)
+        partials[node] = stale
+        post = [[5, 0, 2], [6, 5, 4], [node, left, right], [8, 7, 6]]
+        extra = {"max": _max_contract(mk, counter)} if mk.symbolic else None
+        with symbolic_factories(tl, extra=extra, enabled=mk.symbolic):
+            state = c.prefix(partials, weights, post, mats, freqs, props, el(thr) if mk.symbolic else float(thr))
+            resc0 = list(state["rescaled"])
+            state["rescaled"][left] = left_kind == "rescaled"
+            state["rescaled"][right] = right_kind == "rescaled"
+            n_before = len(state["scalers"])
+            state.update(node=node, left=left, right=right)
+            tag, st2 = c.body(state)
+        out, scalers, flags = st2["partials"], st2["scalers"], st2["rescaled"]
+        cl = [("true", "loop_shape", c.kind == "for" and tag == "next", c.header),
+              ("true", "prefix_marks_nothing_rescaled", len(resc0) == 2 * T - 1 and not any(resc0), repr(resc0)),
+              ("true", "frame_only_partials[node]_written", all(out[m] is sentinels[m] for m in sentinels) and out[left] is R[left] and out[right] is R[right]),
+              ("true", "frame_only_rescaled[node]_written", all(bool(flags[m]) == (m == left and left_kind == "rescaled" or m == right and right_kind == "rescaled") for m in range(2 * T - 1) if m != node))]
+        if len(scalers) == n_before + 1:
+            sc = scalers[-1]
+            code = []
+            for k in range(K):
+                for i in range(S):
+                    for n in range(N):
+                        cprod = el(sc.reshape(-1), (n,))
+                        for m, kind in ((left, left_kind), (right, right_kind)):
+                            if kind == "rescaled":
+                                cprod = cprod * el(C[m], (n,))
+                        code.append(el(out[node], (k, i, n)) * cprod)
+            cl.append(("true", "recomputed_node_is_marked_rescaled", bool(flags[node]) is True))
+            cl.append(("eq", "recomputing_keeps_plain_equals_rescaled_times_scalers", code, spec))
+        elif len(scalers) == n_before:
+            cl.append(("true", "skipping_only_when_no_child_is_rescaled", not any_rescaled))
+            cl.append(("true", "skipped_node_untouched_and_not_marked", out[node] is stale and not flags[node]))
+        else:
+            cl.append(("true", "at_most_one_scaler_per_node", False, "%d -> %d" % (n_before, len(scalers))))
+        return cl
+    return scn
+
+
 # ----------------------------------------------------------------------------------------------
 
 
@@ -505,6 +602,11 @@ def obligations(tier, seed):
                 obs.append(scenario_ob("C03", "C03.equiv.cut.%s[left=%s,right=%s]" % (variant, lk, rk), "U", "scn_rescaled_cut", (variant, lk, rk, 2, 2, 2),
                                        clause="generic iteration of the rescaled pruning loop keeps plain = rescaled x scalers; suffix adds the log scalers (unbounded in taxa)",
                                        funcs=FUNCS, seed=seed))
+    for lk in ("tip", "plain", "rescaled"):
+        for rk in ("tip", "plain", "rescaled"):
+            obs.append(scenario_ob("C03", "C03.equiv.cut.safe[left=%s,right=%s]" % (lk, rk), "U", "scn_safe_cut", (lk, rk, 2, 2, 2),
+                                   clause="generic iteration of the switch-over pruning loop: recomputed nodes keep plain = rescaled x scalers, skipped nodes are plain and have no rescaled child (unbounded in taxa)",
+                                   funcs=FUNCS, seed=seed))
     obs.append(ob_sticky(False))
     obs.append(ob_sticky(True))
     for which in ("single", "all_underflow", "mixed", "mixed_reversed", "none"):
